@@ -27,7 +27,7 @@ NONTRIVIAL = {
 # (family, quick K, thorough K)
 BATTERY = {
     "C01": [("rand", 500, 12000), ("stop", 300, 5000), ("dead", 150, 3000), ("ties", 80, 768),
-            ("tiny", 60, 324), ("edit", 100, 2500), ("slow", 40, 108), ("zerow", 36, 36), ("degen", 75, 75)],
+            ("tiny", 60, 324), ("edit", 100, 2500), ("slow", 40, 108), ("zerow", 36, 36), ("degen", 75, 75), ("jump1", 54, 108)],
     "C04": [("rand", 500, 12000), ("stop", 300, 5000), ("ties", 140, 768), ("dead", 100, 2000),
             ("tiny", 60, 324), ("samerow", 144, 144), ("gap5", 16, 16), ("degen", 75, 75)],
     "C02": [("stop", 700, 16000), ("dead", 250, 4800), ("ties", 80, 768), ("tiny", 60, 324),
